@@ -209,7 +209,7 @@ def main_file(pairs):
         if p.status != "ok" or not p.cases:
             continue
         s, d = "s%d" % p.idx, "d%d" % p.idx
-        need_d = any(c["dir"] == "from" for c in p.cases)
+        need_d = any(c["dir"] == "from" for c in p.cases) or bool(getattr(p, "setcalls", {}).get("dst"))
         imps.append('\t%s "vmod/%s/src"' % (s, p.sub))
         if need_d:
             imps.append('\t%s "vmod/%s/dest"' % (d, p.sub))
@@ -217,11 +217,21 @@ def main_file(pairs):
         calls.append('\tmeth("%d", &%s.%s{}, "%s", "%s")' % (p.idx, s, p.spec["root"], to_name, from_name))
         for k, c in enumerate(p.cases):
             cid = "%d.%d" % (p.idx, k)
+            rec = getattr(p, "setcalls", {})
+            if c["type"] == p.spec["root"] and c["dir"] == "to" and rec.get("dst"):
+                need_d = True
+                calls.append("\t%s.VerifCalls = nil" % d)
+            if c["type"] == p.spec["root"] and c["dir"] == "from" and rec.get("src"):
+                calls.append("\t%s.VerifCalls = nil" % s)
             if c["dir"] == "to":
                 calls.append('\trun("%s", func() any { return %s.VerifIn%d().%s() })' % (cid, s, k, to_name))
             else:
                 calls.append('\trun("%s", func() any { return %s.VerifRecv%d().%s(%s.VerifIn%d()) })' % (
                     cid, s, k, from_name, d, k))
+            if c["type"] == p.spec["root"] and c["dir"] == "to" and rec.get("dst"):
+                calls.append('\tfmt.Printf("S %s %%s\\n", strings.Join(%s.VerifCalls, ","))' % (cid, d))
+            if c["type"] == p.spec["root"] and c["dir"] == "from" and rec.get("src"):
+                calls.append('\tfmt.Printf("S %s %%s\\n", strings.Join(%s.VerifCalls, ","))' % (cid, s))
     return ('package main\n\nimport (\n\t"encoding/hex"\n\t"fmt"\n\t"math"\n\t"reflect"\n\t"sort"\n\t"strings"\n\n%s\n)\n\n'
             'var _ = math.Abs\nvar _ = sort.Strings\nvar _ = hex.EncodeToString\n%s\nfunc main() {\n%s\n}\n'
             % ("\n".join(imps), ORACLE_LIB, "\n".join(calls)))
@@ -273,17 +283,21 @@ def execute(run, pairs, shoot=None, par=6, pre=None, tag="b"):
         raise lib.CheckBroken("oracle program failed: rc=%s %s" % (rc, err[-3000:]))
     obs = {}
     meths = {}
+    setc = {}
     for line in out.splitlines():
         f = line.split(" ", 3)
         if len(f) >= 3 and f[0] == "C":
             obs[f[1]] = (f[2], f[3] if len(f) > 3 else "")
         elif len(f) >= 4 and f[0] == "M":
             meths[f[1]] = (f[2] == "true", f[3] == "true")
+        elif len(f) >= 2 and f[0] == "S":
+            setc[f[1]] = [x for x in (f[2] if len(f) > 2 else "").split(",") if x]
     for p in pairs:
         if p.status != "ok":
             continue
         p.methods = meths.get(str(p.idx))
         for k, c in enumerate(p.cases):
+            c["setcalls"] = setc.get("%d.%d" % (p.idx, k))
             o = obs.get("%d.%d" % (p.idx, k))
             if o is None:
                 raise lib.CheckBroken("oracle printed nothing for case %d.%d" % (p.idx, k))
@@ -309,9 +323,11 @@ def coq_obs(o):
 def coq_case(pair, c):
     def ptr(v):
         return "VNil" if v is None else "(VPtr %s)" % mapgen.coq_val(v)
-    return ('{| c_ps := PS%d; c_type := "%s"; c_to := %s; c_in := %s; c_recv := %s; c_obs := %s |}'
+    sc = c.get("setcalls")
+    return ('{| c_ps := PS%d; c_type := "%s"; c_to := %s; c_in := %s; c_recv := %s; c_obs := %s; c_setcalls := %s |}'
             % (pair.idx, c["type"], "true" if c["dir"] == "to" else "false", ptr(c["in"]),
-               ptr(c.get("recv")), coq_obs(c["obs"])))
+               ptr(c.get("recv")), coq_obs(c["obs"]),
+               "None" if sc is None else "(Some [%s])" % "; ".join('"%s"' % x for x in sc)))
 
 
 HEADER = ("From Coq Require Import String List ZArith NArith Bool.\n"
